@@ -40,7 +40,9 @@ Record constr := mkConstr {
   c_rhs : expr;
   c_scale : Q;
   c_first : bool;
-  c_last : bool }.
+  c_last : bool;
+  c_goffs : list Z }.   (* offsets occurring anywhere in the declared (vector) constraint this
+                          relation belongs to: an instance is placed or dropped as a whole *)
 
 (* non-signal expressions: objective terms and boundary constraints *)
 Inductive pexpr :=
